@@ -317,7 +317,8 @@ func (rt *runtime) cmplEvaluateNodeSwitchStatement(node *nodeSwitchStatement) Va
 	labels := append(rt.labels, "") //nolint:gocritic
 	rt.labels = nil
 
-	discriminantResult := rt.cmplEvaluateNodeExpression(node.discriminant)
+	// GetValue now: a case expression must not be able to change the discriminant.
+	discriminantResult := rt.cmplEvaluateNodeExpression(node.discriminant).resolve()
 	target := node.defaultIdx
 
 	for index, clause := range node.body {
